@@ -208,7 +208,7 @@ def direction_B(ctx, thorough):
                 tid += 1
                 plan.append((tid, fmt, al, False))
     # several extents behind one VMDK object (handles or descriptor, with and without a parent)
-    for al in ((512, 8192, 65536) if not thorough else (512, 4096, 8192, 65536, 1 << 20)):
+    for al in ((512, 8192, 65536, 4096) if not thorough else (512, 4096, 8192, 65536, 1 << 20, 1536)):
         tid += 1
         plan.append((tid, "vmdk-extents", al, False))
     byid = {t[0]: t for t in plan}
@@ -216,7 +216,7 @@ def direction_B(ctx, thorough):
     def mk(tid, rng):
         _, fmt, al, many = byid[tid]
         if fmt == "vmdk-extents":
-            t = c10.make_trace(tid, rng, 60 if thorough else 30, align=al)
+            t = c10.make_trace(tid, rng, 60 if thorough else 30, align=al, delta=(tid % 2 == 0))
             t["align"], t["many"] = al, False
             return t
         if fmt in chain_makers:
